@@ -121,9 +121,13 @@ Fixpoint file_phase (fuel : nat) (c : jcfg) (w : world) (lowest : N) (fevs : lis
                  then match j_cursor c with Some cu => hub_through_cursor (h_f (w_hub w)) n cu | None => BErr end
                  else blocks_from_num (h_f (w_hub w)) n) with
           | BOk evs =>
-              (* fix: outside target mode the join is made on the IDENTITY of the file block (SourceFromBlockRef):
-                 the hub answers only when its canonical block of that height is this very block *)
-              let same := (j_mode c =? 2) || match evs with b0 :: _ => bid (eblk b0) =? bid (eblk e) | [] => false end in
+              (* fix: the join is made on the IDENTITY of the file block (SourceFromBlockRef): the hub answers only
+                 when its canonical block of that height is this very block.  In target-cursor mode too when the
+                 cursor block is below the file block (fix "target join on identity": liveSourceThrough; the hub's
+                 answer is then blocks_from_num n); otherwise hub_through_cursor n answers through the cursor. *)
+              let passed := match j_cursor c with Some cu => rn (cu_blk cu) <? n | None => false end in
+              let same := ((j_mode c =? 2) && negb passed)
+                          || match evs with b0 :: _ => bid (eblk b0) =? bid (eblk e) | [] => false end in
               if h_ready (w_hub w) && same then Some evs else None
           | _ => None
           end
@@ -190,7 +194,9 @@ Fixpoint file_phase_fin (fuel : nat) (c : jcfg) (w : world) (lastfin : option N)
                  then match j_cursor c with Some cu => hub_through_cursor (h_f (w_hub w)) n cu | None => BErr end
                  else blocks_from_num (h_f (w_hub w)) n) with
           | BOk evs =>
-              let same := (j_mode c =? 2) || match evs with b0 :: _ => bid (eblk b0) =? bid (eblk e) | [] => false end in
+              let passed := match j_cursor c with Some cu => rn (cu_blk cu) <? n | None => false end in
+              let same := ((j_mode c =? 2) && negb passed)
+                          || match evs with b0 :: _ => bid (eblk b0) =? bid (eblk e) | [] => false end in
               if h_ready (w_hub w) && same then Some evs else None
           | _ => None
           end
